@@ -1445,8 +1445,8 @@ func (e *Exec) importPropAll(want, got map[string]string, shown []string) string
 
 func (e *Exec) importProp(diffLine string) string {
 	switch {
-	case strings.Contains(diffLine, "aol/record/") && e.Prop == "C01":
-		return "C01"
+	case (strings.Contains(diffLine, "aol/record/") || strings.Contains(diffLine, "aol/topic/")) && e.Prop == "C01":
+		return "C01" // records, or the record counter the next offset is taken from"
 	case strings.Contains(diffLine, " did/") && strings.Contains(diffLine, "tomb") && e.Prop == "C05":
 		return "C05"
 	case (strings.Contains(diffLine, "aol/topic/") || strings.Contains(diffLine, "aol/owner/")) && e.Prop == "C13":
